@@ -24,8 +24,9 @@ EXTENDS SourceView, TLC, Json
 
 CONSTANTS Threads, Algo, Texts, CallPool, MaxCalls
 
-VARIABLES text, calls, lock, poisoned, proc, cache, pc, k, results, sched, phase, own
-vars == <<text, calls, lock, poisoned, proc, cache, pc, k, results, sched, phase, own>>
+VARIABLES text, calls, lock, poisoned, proc, cache, pc, k, results, sched, phase, own, pend
+vars == <<text, calls, lock, poisoned, proc, cache, pc, k, results, sched, phase, own, pend>>
+\* pend: <<>> or <<line>> -- the line the lock holder has cut off (progress counter already moved) but not yet pushed
 \* own[t]: <<>> while thread t uses the shared view, <<index state>> once it has cloned it
 
 FREE == 0
@@ -38,17 +39,17 @@ Init == /\ phase = "build" /\ text \in Texts
         /\ lock = FREE /\ poisoned = FALSE /\ proc = 0 /\ cache = <<>>
         /\ pc = [t \in Threads |-> "idle"] /\ k = [t \in Threads |-> 1]
         /\ results = [t \in Threads |-> <<>>] /\ sched = <<>>
-        /\ own = [t \in Threads |-> <<>>]
+        /\ own = [t \in Threads |-> <<>>] /\ pend = <<>>
 \* TLC chooses each thread's program
 AddCall == /\ phase = "build"
            /\ \E t \in Threads, c \in CallPool :
                  /\ Len(calls[t]) < MaxCalls
                  /\ (\A u \in Threads : u < t => Len(calls[u]) >= 1)
                  /\ calls' = [calls EXCEPT ![t] = Append(@, c)]
-           /\ UNCHANGED <<text, lock, poisoned, proc, cache, pc, k, results, sched, phase, own>>
+           /\ UNCHANGED <<text, lock, poisoned, proc, cache, pc, k, results, sched, phase, own, pend>>
 Go == /\ phase = "build" /\ \A t \in Threads : Len(calls[t]) >= 1
       /\ phase' = "run"
-      /\ UNCHANGED <<text, calls, lock, poisoned, proc, cache, pc, k, results, sched, own>>
+      /\ UNCHANGED <<text, calls, lock, poisoned, proc, cache, pc, k, results, sched, own, pend>>
 
 \* record the answer of thread t's current call and move to its next call
 Record(t, rec) == /\ results' = [results EXCEPT ![t] = Append(@, rec)]
@@ -67,12 +68,12 @@ Private(t) ==
        THEN own' = [own EXCEPT ![t] = << SvInit >>] /\ Answer(t, 0)
        ELSE LET r == Apply(own[t][1], text, Cur(t)) IN
             own' = [own EXCEPT ![t] = << r.st >>] /\ Answer(t, r.ret)
-    /\ UNCHANGED <<lock, poisoned, proc, cache>>
+    /\ UNCHANGED <<lock, poisoned, proc, cache, pend>>
 
 Begin(t) ==
     /\ pc[t] = "idle" /\ k[t] <= Len(calls[t]) /\ lock = FREE
     /\ Cur(t).op # "clone" /\ own[t] = <<>>
-    /\ UNCHANGED own
+    /\ UNCHANGED <<own, pend>>
     /\ IF poisoned THEN AnswerPanic(t) /\ UNCHANGED <<lock, poisoned, proc, cache>>
        ELSE IF Idx(Cur(t)) < Len(cache)
             THEN Answer(t, <<cache[Idx(Cur(t)) + 1]>>) /\ UNCHANGED <<lock, poisoned, proc, cache>>
@@ -85,7 +86,7 @@ Begin(t) ==
 
 Fin(t) ==
     /\ pc[t] = "fin"
-    /\ UNCHANGED own
+    /\ UNCHANGED <<own, pend>>
     /\ IF proc > Len(text)
        THEN IF Cur(t).op = "line_count"
             THEN pc' = [pc EXCEPT ![t] = "cnt"] /\ UNCHANGED <<results, k>>
@@ -95,25 +96,34 @@ Fin(t) ==
 
 Acq(t) ==
     /\ pc[t] = "acq" /\ lock = FREE
-    /\ UNCHANGED own
+    /\ UNCHANGED <<own, pend>>
     /\ IF poisoned THEN AnswerPanic(t) /\ UNCHANGED <<lock, poisoned, proc, cache>>
        ELSE lock' = t /\ pc' = [pc EXCEPT ![t] = "loop"] /\ UNCHANGED <<poisoned, proc, cache, results, k>>
 
+\* One round of the indexing loop is TWO writes, as in the code: first the progress counter moves past the line
+\* (LoopAdvance), then the line is pushed onto the table (LoopPush) and the round's checks run.  Between the two the shared
+\* state is HALF UPDATED (proc ahead of cache); it is never observable in the algorithms modelled here because the holder
+\* keeps the lock -- hook H1's fourth yield point parks a real thread exactly there, so a lock-free reader added to the
+\* code would be caught by the replayed schedules.
 Loop(t) ==
     /\ pc[t] = "loop" /\ lock = t
     /\ UNCHANGED own
-    /\ IF proc > Len(text)
-       THEN \* text[proc..] is out of range: panic while holding the guard => the mutex is poisoned
-            /\ poisoned' = TRUE /\ lock' = FREE /\ AnswerPanic(t) /\ UNCHANGED <<proc, cache>>
-       ELSE LET s2 == IndexStep(Shared, text) IN
-            /\ proc' = s2.proc /\ cache' = s2.cache
-            /\ IF Idx(Cur(t)) < Len(s2.cache)
-               THEN Answer(t, <<s2.cache[Idx(Cur(t)) + 1]>>) /\ lock' = FREE
-               ELSE IF s2.proc > Len(text)
+    /\ IF pend = <<>>
+       THEN IF proc > Len(text)
+            THEN \* text[proc..] is out of range: panic while holding the guard => the mutex is poisoned
+                 /\ poisoned' = TRUE /\ lock' = FREE /\ AnswerPanic(t) /\ UNCHANGED <<proc, cache, pend>>
+            ELSE LET s2 == IndexStep(Shared, text) IN
+                 /\ proc' = s2.proc /\ pend' = << s2.cache[Len(s2.cache)] >>
+                 /\ UNCHANGED <<cache, lock, pc, results, k, poisoned>>
+       ELSE LET c2 == Append(cache, pend[1]) IN
+            /\ cache' = c2 /\ pend' = <<>> /\ UNCHANGED proc
+            /\ IF Idx(Cur(t)) < Len(c2)
+               THEN Answer(t, <<c2[Idx(Cur(t)) + 1]>>) /\ lock' = FREE
+               ELSE IF proc > Len(text)
                     THEN IF Cur(t).op = "line_count"
                          THEN (IF Algo = "split"
                                THEN pc' = [pc EXCEPT ![t] = "cnt"] /\ UNCHANGED <<results, k>>
-                               ELSE Answer(t, Len(s2.cache)))
+                               ELSE Answer(t, Len(c2)))
                               /\ lock' = FREE
                          ELSE Answer(t, <<>>) /\ lock' = FREE
                     ELSE UNCHANGED <<lock, pc, results, k>>
@@ -121,7 +131,7 @@ Loop(t) ==
 
 Cnt(t) ==
     /\ pc[t] = "cnt" /\ lock = FREE
-    /\ UNCHANGED own
+    /\ UNCHANGED <<own, pend>>
     /\ IF poisoned THEN AnswerPanic(t) ELSE Answer(t, Len(cache))
     /\ UNCHANGED <<lock, poisoned, proc, cache>>
 
@@ -141,10 +151,12 @@ LockDiscipline == lock # FREE => pc[lock] = "loop"
 NeedsLock(t) == pc[t] \in {"idle", "acq", "cnt"} /\ ~(pc[t] = "idle" /\ k[t] <= Len(calls[t]) /\ (Cur(t).op = "clone" \/ own[t] # <<>>))
 Progress == (phase = "run" /\ ~AllDone) =>
                 \E t \in Threads : k[t] <= Len(calls[t]) /\ ~(NeedsLock(t) /\ lock # FREE)
-IndexOK == /\ poisoned \/ (IsPrefix(cache, Lines(text)) /\ ((proc > Len(text)) => Len(cache) = Len(Lines(text))))
+IndexOK == /\ poisoned \/ (IsPrefix(cache, Lines(text)) /\ ((proc > Len(text) /\ pend = <<>>) => Len(cache) = Len(Lines(text))))
            /\ \A t \in Threads : own[t] # <<>> => IndexConsistent(own[t][1], text)      \* private copies too
 
-View == <<text, calls, lock, poisoned, proc, cache, pc, k, results, phase, own>>   \* everything but the schedule
+\* the half-updated state exists only inside the critical section
+HalfUpdatedOnlyUnderLock == pend # <<>> => (lock # FREE /\ pc[lock] = "loop")
+View == <<text, calls, lock, poisoned, proc, cache, pc, k, results, phase, own, pend>>   \* everything but the schedule
 EmitCase == AllDone => PrintT("CASE " \o ToJson([op |-> "conc", text |-> text,
                                    calls |-> [i \in 1..Cardinality(Threads) |-> calls[i]], sched |-> sched]))
 =============================================================================
